@@ -681,6 +681,21 @@ def r05_6(rep: Report) -> None:
             return frozenset(facts)
         bad: list = []
         seen = [0]
+        # lists that are handed out as they are; a list that is only read through a comprehension which
+        # keeps the entries with a duration (`[r for r in runs if r.duration is not None]`) is not
+        filtered: set[str] = set()
+        for n_ in ast.walk(fn):
+            if isinstance(n_, (ast.ListComp, ast.GeneratorExp)) and len(n_.generators) == 1 \
+                    and isinstance(n_.generators[0].iter, ast.Name) and isinstance(n_.generators[0].target, ast.Name):
+                v_ = n_.generators[0].target.id
+                if any(norm(i_) in (f'{v_}.duration is not None', f'{v_}.duration != None') for i_ in n_.generators[0].ifs):
+                    src_ = n_.generators[0].iter.id
+                    other = [x_ for x_ in ast.walk(fn) if isinstance(x_, ast.Name) and x_.id == src_
+                             and isinstance(x_.ctx, ast.Load) and x_ is not n_.generators[0].iter
+                             and not (isinstance(getattr(x_, '_parent', None), ast.Attribute)
+                                      and getattr(x_._parent, 'attr', '') == 'append')]
+                    if not other:
+                        filtered.add(src_)
 
         def on_stmt(st, states):
             if isinstance(st, (ast.If, ast.While, ast.For, ast.With, ast.Try)):
@@ -688,6 +703,9 @@ def r05_6(rep: Report) -> None:
             for c in ast.walk(st):
                 if isinstance(c, ast.Call) and isinstance(c.func, ast.Attribute) and c.func.attr == 'append' \
                         and c.args and isinstance(c.args[0], ast.Name):
+                    if isinstance(c.func.value, ast.Name) and c.func.value.id in filtered:
+                        seen[0] += 1
+                        continue
                     x = c.args[0].id
                     seen[0] += 1
                     for state in states:
